@@ -707,7 +707,7 @@ def strategy(tier):
 
 
 def budget(tier):
-    return 1500 if tier == "quick" else 12000
+    return 1500 if tier == "quick" else 40000
 
 
 def explicit(tier, seed):
